@@ -21,6 +21,7 @@ Implementation: Single-file analysis with config-driven filtering and tree-sitte
 
 from src.core.base import BaseLintContext, BaseLintRule
 from src.core.linter_utils import (
+    drop_suppressed,
     has_file_content,
     is_ignored_path,
     path_in_project,
@@ -96,7 +97,7 @@ class BlockingAsyncRule(BaseLintRule):
 
         file_path = resolve_file_path(context)
         calls = self._analyzer.find_blocking_calls(context.file_content or "")
-        return self._build_violations(calls, config, file_path)
+        return drop_suppressed(self._build_violations(calls, config, file_path), context)
 
     def _should_analyze(self, context: BaseLintContext, config: BlockingAsyncConfig) -> bool:
         """Determine if the file should be analyzed.
